@@ -156,9 +156,11 @@ def common_alphabet_rule(ctx, rule):
     ctx.need(len(lps) == 1 and isinstance(lps[0].target, ast.Name), "the loop of common_alphabet")
     lp = lps[0]
     item = lp.target.id
-    tracked = machine.assigned_names(lp)
-    ctx.need(len(tracked) == 1, "one candidate in common_alphabet")
-    cand = next(iter(tracked))
+    # the candidate is the name the function answers with
+    finals = [st.value.id for st in f.body if isinstance(st, ast.Return) and isinstance(st.value, ast.Name)]
+    ctx.need(len(finals) == 1 and finals[0] in machine.assigned_names(lp), "the candidate that common_alphabet returns")
+    cand = finals[0]
+    tracked = {cand}
     from ..exprnorm import canon as _canon
     k_none = repr(_canon(ast.parse(f"{cand} is None", mode="eval").body))
     k_keep = repr(_canon(ast.parse(f"{cand}.extends({item})", mode="eval").body))
